@@ -17,7 +17,10 @@ Sub-checks (one case = one configuration; `cases(tier)` is the complete list)
              path of the level-k chain (fine row) and of the level-(k-1) chain (coarse row), at t = 0, 0.3 and the maturity
              (1.0 or 2.5); the coarse diffusion coefficient (1-d) / diffusion matrix (n-d) is level l-1's, the fine one
              level l's;
-       (iv)  a few paths are simulated with every random source scripted and checked as in `assembly`.
+       (iv)  a few paths are simulated with every random source scripted and checked as in `assembly`;
+       (v)   the same increment handed to the kernel in another integer form (numpy int64 / int32; n-d: tuple of numpy integers,
+             tuple mixing Python and numpy integers, row of an integer array) is sent to the same coarse state by the same uniform (a form the code refuses is counted,
+             `increment-form-refused:*`, not judged); deterministic_path does not modify the caller's array of times.
  assembly (dim 1, 2, 3)   simulate_one_path_with_coupling with every random source the library draws from replaced by
        deterministic streams, several jumps per interval, 1 or 2 intervals. The fine chain's own output (the MarkovChain
        returned by fine._path_simulation.simulate_markov_chain: increments, values, times per interval) is recorded, and
@@ -26,8 +29,18 @@ Sub-checks (one case = one configuration; `cases(tier)` is the complete list)
        a FRESH twin coupling (u = the constant the coupling uniform is scripted to for that path, so no assumption on the
        order or number of uniforms drawn is made; the coupling must draw at least one uniform per jump with an odd
        coordinate); diffusion rows: coarse = (level l-1 coefficient / level l coefficient) x fine (n-d: M_{l-1} pinv(M_l)),
-       i.e. the same Brownian increments, coefficients taken from INDEPENDENT chains. All three simulation classes
-       (fixed dates, jump times, maximum step), every sampling method the constructor accepts.
+       i.e. the same Brownian increments, coefficients taken from INDEPENDENT chains; dimension 1 also in absolute terms: every
+       step of the fine diffusion row divided by (level-l coefficient of the independent chain) x sqrt(dt) is one of the standard
+       normal variates the scripted source handed out (the fine component diffuses with level l's coefficient, whatever the
+       object cached and whenever). All three simulation classes (fixed dates, jump times, maximum step), every sampling method
+       the constructor accepts. The paths are observed
+         - prepared either way (`prep`): "precompute" = reset_one_simulation_cost + pre_computation, then the paths (Engine.price),
+           or "next-level" = nothing at all between next_level and the paths, which use what next_level's own pre_computation
+           left (Engine.price_with_constant_mc_paths_and_level, a hand-driven coupling); with fixed dates as many paths as
+           next_level was told to pre-compute for;
+         - on the object itself, on a dill round trip of it (what a pool worker receives) or on a deepcopy (`carrier`);
+         - with one of two scripts of numbers of jumps per interval (`counts`: "b" has intervals and whole paths without any
+           jump and an interval with 40 jumps).
  sde   CouplingSDE (forward-market model with 1-d and 2-d driver, Libor model): mc_drift_2h / mc_drift_h = drift of the
        level l-1 / l driver chain, and the driver coupling reached through CouplingSDE.next_level - that is through
        next_level(path_managers=None, max_step_epsilon=...) - gets the kernel, coefficient and path checks above.
@@ -41,10 +54,12 @@ Alphabets
        and one threshold per name), uniform h=0.2, geometric, geometric with bounds; dimension 3 on the 3-point grid;
  methods: all six 1-d methods; INVERSION and BINARYSEARCHTREEADAPTED for the copula coupling (the constructor raises
        ValueError / TypeError for the others);
- levels 1, 2 (3 thorough);
+ levels 1, 2 (3 thorough; in the quick tier level 3 for HEM / CGMY 1.2 on the fixed n=5 grid, both routes, and for hem+cgmy12 on
+       the 3-point grid);
  routes: next_level(path_managers=[...]) (the engine) and next_level(path_managers=None, max_step_epsilon=eps) (CouplingSDE);
-       number of paths handed to next_level 1, 0 (what Engine.price hands over) and 3; max_step_epsilon 0.4 (below the maturity:
-       the time grid is refined) and 3.0 (above it);
+       number of paths handed to next_level 1, 0 (what Engine.price hands over) and 3 (2..6 when the paths are observed as
+       next_level left the object); max_step_epsilon 0.4 (below the maturity: the time grid is refined) and 3.0 (above it);
+       the call written with keywords and Python numbers or positionally with a numpy integer / numpy float (`args`);
  simulation classes: FixedTimes (deterministic dates), WithJumpTimes (stochastic dates), MaximumStep (max_step_epsilon);
  products: maturity 1.0 / 2.5, Spot underlying (one interval) and yearly Asian underlying (dates 0, 1.25, 2.5);
  histories between two refinements: "plain" (nothing), "kernel" (the kernel of every state is used), "simulate"
@@ -52,11 +67,14 @@ Alphabets
        Engine.price_with_constant_mc_paths_and_level), "engine" (reset_one_simulation_cost, pre_computation, paths simulated,
        copy.deepcopy, next_level on the copy: Engine.price), "second-product" (the level-0 object first initialised, pre-computed
        and simulated for ANOTHER product - the other kind of payoff dates, another maturity - then initialised for the case's
-       product: a second pricing with the same object); the reference chains and the twin coupling are built while the
+       product: a second pricing with the same object), "constant" (level 0: pre_computation, deepcopy, paths of the fine chain;
+       every level >= 1: coupled paths simulated right after next_level WITHOUT a pre_computation of their own, then the next
+       next_level: Engine.price_with_constant_mc_paths_and_level), "dill" (pre_computation, paths, dill.dumps / loads, next_level
+       on the copy); the reference chains and the twin coupling are built while the
        observed object exists (a second object of the same class in between); a grid refined once by the caller before the
        constructor (pre=1).
- The auxiliary axes (method, history, simulation class, product, number of paths, epsilon) are ROTATED over the lattices, not
- multiplied with them: in kernel1d every value of every axis occurs at every level on every route, in kernelnd at every level,
+ The auxiliary axes (method, history, simulation class, product, number of paths, epsilon, prep, carrier, counts, args) are
+ ROTATED over the lattices, not multiplied with them: in kernel1d every value of every axis occurs at every level on every route, in kernelnd at every level,
  in assembly with every (method, simulation class) - not with every model and grid. `post` marks the run as not exhaustive
  (caps) when a class a sub-check exists for was not reached or a case fell outside the alphabet.
 
@@ -64,7 +82,9 @@ Outside the alphabet (statement silent or constructor refuses): CTMCGridProbabil
  1-d model: AttributeError); copula coupling with ALIAS / TABLE / BINARYSEARCHTREE / HUFFMANNTREE / BINARYSEARCHTREEADAPTED1D
  (constructor raises); h below 0.05; dimension 3 beyond the 3-point grid; the Euler recursion of CouplingSDE itself (C16);
  the law of the Brownian increments and of the jump times (C15); intensity = sum of the cell masses (C01: only counted here,
- `oracle-rates-differ-from-intensity`).
+ `oracle-rates-differ-from-intensity`); copy.copy of a coupling (a shallow copy shares the grid, which next_level refines in
+ place: no library route makes one); a second initialisation of an object that already stands at a level >= 1 (the engines
+ only ever initialise their level-0 process and refine copies of it).
 """
 from __future__ import annotations
 
@@ -113,7 +133,14 @@ MER = {"family": "merton", "exp": False, "params": {}}
 
 METHODS_1D = ["INVERSION", "ALIAS", "BINARYSEARCHTREE", "HUFFMANNTREE", "TABLE", "BINARYSEARCHTREEADAPTED1D"]
 METHODS_ND = ["INVERSION", "BINARYSEARCHTREEADAPTED"]
-HISTORIES = ["plain", "kernel", "simulate", "engine", "second-product"]
+HISTORIES = ["plain", "kernel", "simulate", "engine", "second-product", "constant", "dill"]
+# who prepares the object between the last next_level and the observed paths
+PREPS = ["precompute", "next-level"]
+# the object the observed paths are simulated on
+CARRIERS = ["self", "dill", "deepcopy"]
+# numbers of jumps per interval the scripted Poisson source hands out (second pattern: intervals and whole paths without
+# any jump, one interval with many jumps)
+COUNTS = {"a": (2, 0, 3, 1, 4, 1, 2), "b": (0, 0, 3, 1, 0, 0, 2, 40, 5, 0, 7, 1)}
 MODES = ["fixed", "jumptimes", "maxstep"]
 PRODUCTS = [
     {"maturity": 1.0, "underlying": "spot"},
@@ -145,14 +172,20 @@ def _aux(j, level, r, dim=1):
         mode = MODES[(j + level) % 3]
     else:
         mode = ("maxstep", "maxstep", "fixed", "jumptimes")[j % 4]
+    prep = PREPS[(j // 3 + level + r) % 2]
     return {
         "method": methods[(j + 2 * level + 3 * r) % len(methods)],
         "route": route,
         "history": HISTORIES[(j + level - 1 + r) % len(HISTORIES)],
         "mode": mode,
         "product": PRODUCTS[(j + level + r) % 3],
-        # number of paths handed to next_level (Engine.price hands over the number of paths the new level has so far: 0)
-        "mc_paths": (1, 0, 3)[(j + level) % 3],
+        # number of paths handed to next_level (Engine.price hands over the number of paths the new level has so far: 0;
+        # Engine.price_with_constant_mc_paths_and_level the number of paths it simulates right afterwards)
+        "mc_paths": (1, 0, 3)[(j + level) % 3] if prep == "precompute" else (2, 4, 3)[(j + level) % 3],
+        "prep": prep,
+        "carrier": CARRIERS[(j + r) % 3],
+        "counts": "ab"[(j // 2 + level) % 2],
+        "args": ("keyword", "positional-numpy")[(j + level // 2) % 2],
         # max_step_epsilon of the maximum-step class: below both maturities (time grid refined) / above (nothing to refine)
         "eps": (0.4, 3.0)[(j // 2 + r) % 2],
     }
@@ -190,6 +223,12 @@ def cases(tier):
             for r in (0, 1):
                 out.append(dict({"sub": "kernel1d", "model": m, "grid": G_F5, "level": level}, **_aux(j, level, r)))
         j += 1
+    # three refinements (accumulation over the levels) on the small grid, both routes: also in the quick tier
+    if not thorough:
+        for m in (HEM, CG12):
+            for r in (0, 1):
+                out.append(dict({"sub": "kernel1d", "model": m, "grid": G_F5, "level": 3}, **_aux(j, 3, r)))
+            j += 1
     # a grid the caller has already refined once before handing it to the constructor
     for m in (HEM, CG12):
         for g in (grids[0], grids[2], grids[3]):
@@ -207,8 +246,11 @@ def cases(tier):
                     out.append({"sub": "assembly", "dim": 1, "model": m, "grid": g, "level": 1 + (gi + mi + oi) % nl, "method": meth,
                                 "mode": mode, "route": ("pm", "none")[(mi + gi + ti) % 2],
                                 "history": HISTORIES[(2 * gi + mi + ti + oi) % len(HISTORIES)],
-                                "product": PRODUCTS[(2 * gi + mi + ti) % 3], "mc_paths": (1, 0, 3)[(gi + oi + ti) % 3],
-                                "eps": (0.4, 3.0)[(mi + gi) % 2]})
+                                "product": PRODUCTS[(2 * gi + mi + ti) % 3],
+                                "mc_paths": ((1, 0, 3) if (gi + ti + oi) % 2 == 0 else (4, 6, 5))[(gi + oi + ti) % 3],
+                                "eps": (0.4, 3.0)[(mi + gi) % 2], "prep": PREPS[(gi + ti + oi) % 2],
+                                "carrier": CARRIERS[(gi + mi + 2 * ti + oi) % 3], "counts": "ab"[(mi + ti + oi) % 2],
+                                "args": ("keyword", "positional-numpy")[(mi + gi + oi) % 2]})
     # ---------------------------------------------------------------- kernelnd
     cms = [CM_HV, CM_CH, CM_IND, CM_DEP] + ([CM_VC] if thorough else [])
     grids2 = [G_F3, G_F5, G_CR] + ([G_CRA] if thorough else [])
@@ -239,6 +281,9 @@ def cases(tier):
         j += 1
     out.append(knd(CM_IV, G_F5, 1, 0, stub=True))
     j += 1
+    # three refinements, level-dependent diffusion matrix
+    out.append(knd(CM_IV, G_F3, 3, 0, stub=True))
+    j += 1
     # the other n-d grid constructors
     for g in (G_UNI, G_GEOB, G_GEO):
         for level in ((1, 2) if thorough else (1,)):
@@ -263,8 +308,11 @@ def cases(tier):
                         c = {"sub": "assembly", "dim": 2, "model": cm, "grid": g, "level": level, "method": meth, "mode": mode,
                              "route": ("pm", "none")[(ci + gi + level + ti) % 2],
                              "history": HISTORIES[(2 * ci + gi + level - 1 + ti + oi) % len(HISTORIES)],
-                             "product": PRODUCTS[(2 * ci + gi + level + ti) % 3], "mc_paths": (1, 0, 3)[(ci + gi + oi + ti) % 3],
-                             "eps": (0.4, 3.0)[(ci + level) % 2]}
+                             "product": PRODUCTS[(2 * ci + gi + level + ti) % 3],
+                             "mc_paths": ((1, 0, 3) if (ci + ti + oi + level) % 2 == 0 else (4, 6, 5))[(ci + gi + oi + ti) % 3],
+                             "eps": (0.4, 3.0)[(ci + level) % 2], "prep": PREPS[(ci + ti + oi + level) % 2],
+                             "carrier": CARRIERS[(ci + gi + ti + oi + 2 * level) % 3], "counts": "ab"[(ci + oi + level) % 2],
+                             "args": ("keyword", "positional-numpy")[(ci + ti + level) % 2]}
                         if cm is CM_IV:
                             c["stub"] = True
                         out.append(c)
@@ -272,6 +320,10 @@ def cases(tier):
     for mode in (MODES if thorough else MODES[1:2]):
         out.append({"sub": "assembly", "dim": 3, "model": cm3, "grid": G_F3, "level": 1, "method": "INVERSION", "mode": mode,
                     "route": "pm", "history": "simulate", "product": PRODUCTS[1], "mc_paths": 0, "eps": 0.4})
+    if thorough:
+        out.append({"sub": "assembly", "dim": 3, "model": cm3, "grid": G_F3, "level": 1, "method": "INVERSION", "mode": "fixed",
+                    "route": "pm", "history": "constant", "product": PRODUCTS[1], "mc_paths": 6, "eps": 0.4, "prep": "next-level",
+                    "carrier": "dill", "counts": "b"})
     # ---------------------------------------------------------------- SDE coupling
     j = 0
     sde = [
@@ -286,7 +338,8 @@ def cases(tier):
         for level in levels if s["dim"] == 1 else (1, 2):
             methods = METHODS_1D if s["dim"] == 1 else METHODS_ND
             out.append(dict(s, sub="sde", level=level, method=methods[(j + level) % len(methods)],
-                            history=("plain", "engine", "simulate")[(j + level) % 3]))
+                            history=("plain", "engine", "simulate")[(j + level) % 3], prep=PREPS[(j + level) % 2],
+                            carrier=CARRIERS[(j + 2 * level) % 3]))
         j += 1
     return out
 
@@ -327,6 +380,7 @@ class Streams:
     def __init__(self, counts=(2, 0, 3, 1, 4, 1, 2)):
         self.k = {"u": 0, "n": 0, "p": 0, "r": 0}
         self.counts = list(counts)
+        self.normals = []  # every standard normal variate handed out so far (before scale and loc are applied)
 
     def _frac(self, which, start, step):
         k = self.k[which]
@@ -341,8 +395,11 @@ class Streams:
 
     def normal(self, loc=0.0, scale=1.0, size=None):
         n = 1 if size is None else int(np.prod(size))
-        vals = np.array([2.0 * self._frac("n", 0.31, PLASTIC) - 1.0 for _ in range(n)], dtype=float) * scale + loc
-        return float(vals[0]) if size is None else vals.reshape(size)
+        raw = [2.0 * self._frac("n", 0.31, PLASTIC) - 1.0 for _ in range(n)]
+        self.normals.extend(raw)
+        if size is None:
+            return float(raw[0] * scale + loc) if np.ndim(scale) == 0 and np.ndim(loc) == 0 else raw[0] * scale + loc
+        return np.array(raw, dtype=float).reshape(size) * scale + loc
 
     def poisson(self, lam=1.0, size=None):
         n = 1 if size is None else int(np.prod(size))
@@ -490,10 +547,17 @@ class Dim1:
         return float(grid.axes[0][grid.origin_coordinate.value + int(inc)])
 
     @staticmethod
-    def kernel_fn(cp):
+    def kernel_fn(cp, raw=False):
         sim = _attr(cp, "_path_coupling_simulation")
         f = _attr(sim, "coupling_state")
+        if raw:
+            return lambda inc: float(f(inc))  # the increment handed over in the caller's form
         return lambda inc: float(f(int(inc)))
+
+    @staticmethod
+    def forms(inc):
+        """The same increment in the other integer forms a caller (or a sampler) may hand over."""
+        return [("numpy-int64", np.int64(inc)), ("numpy-int32", np.int32(inc))]
 
     @staticmethod
     def uniform_of(cp):
@@ -565,14 +629,22 @@ class DimN:
         return tuple(float(grid.axes[k][orig[k] + int(i)]) for k, i in enumerate(inc))
 
     @staticmethod
-    def kernel_fn(cp):
+    def kernel_fn(cp, raw=False):
         sim = _attr(cp, "_path_coupling_simulation")
+        co = (lambda inc: inc) if raw else (lambda inc: tuple(int(i) for i in inc))
         # the route the simulation itself takes: the coarse values of a slice of one jump (starting from the origin)
         slice_fn = getattr(sim, "_coupling_states_for_a_slice", None)
         if slice_fn is not None:
-            return lambda inc: tuple(float(v) for v in np.asarray(slice_fn([tuple(int(i) for i in inc)])[0]).ravel())
+            return lambda inc: tuple(float(v) for v in np.asarray(slice_fn([co(inc)])[0]).ravel())
         f = _attr(sim, "_CouplingLevyCopulaSimulation__coupling_state", "coupling_state")
-        return lambda inc: tuple(float(v) for v in np.asarray(f(tuple(int(i) for i in inc))).ravel())
+        return lambda inc: tuple(float(v) for v in np.asarray(f(co(inc))).ravel())
+
+    @staticmethod
+    def forms(inc):
+        # the samplers hand over tuples of Python ints (INVERSION) or tuples mixing Python and numpy integers (the adapted tree)
+        return [("tuple-of-numpy-int64", tuple(np.int64(i) for i in inc)),
+                ("tuple-of-int-and-numpy-int64", tuple(int(i) if k == 0 else np.int64(i) for k, i in enumerate(inc))),
+                ("array-row", np.array([int(i) for i in inc]))]
 
     @staticmethod
     def uniform_of(cp):
@@ -707,8 +779,49 @@ def take_to_level(sh, D, case, product, cls, sub, nsim=2):
                              f"history {history}: simulating at level {l} before next_level: {e!r}", None)
             if history == "engine":
                 cp = copy.deepcopy(cp)
-        cp.next_level(mc_paths=case.get("mc_paths", 1), path_managers=pms, product=product, max_step_epsilon=eps)
+        elif history in ("constant", "dill"):
+            try:
+                if l == 0 or history == "dill":
+                    cp.pre_computation(mc_paths=nsim, product=product)  # level 0: Engine.initialisation
+                    avail = nsim
+                    if history == "constant":
+                        cp = copy.deepcopy(cp)  # the engine refines a copy of its level-0 process
+                else:
+                    # Engine.price_with_constant_mc_paths_and_level: the paths of a level >= 1 are simulated right after
+                    # next_level, which pre-computed for the number of paths it was given - no pre_computation of their own
+                    avail = min(nsim, case.get("mc_paths", 1)) if case.get("mode", "fixed") == "fixed" else nsim
+                for n in range(avail):
+                    if l == 0:
+                        cp.simulate_one_path()
+                    else:
+                        cp.simulate_one_path_with_coupling()
+            except SeamMissing:
+                raise
+            except Exception as e:  # noqa
+                sh.violation(f"C03:{sub}:history-simulation-raises-{type(e).__name__}:level-{'0' if l == 0 else 'ge1'}:{cls}",
+                             f"history {history}: simulating at level {l} before next_level: {e!r}", None)
+            if history == "dill":
+                # what the pool branch of the engines does to the process: every chunk of paths works on a dill copy
+                cp = round_trip(cp, "dill")
+        if case.get("args", "keyword") == "keyword":
+            cp.next_level(mc_paths=case.get("mc_paths", 1), path_managers=pms, product=product, max_step_epsilon=eps)
+        else:
+            # the same call as the engines write it: positional, the number of paths a numpy integer (an element of the array
+            # of paths per level), the step a numpy float
+            cp.next_level(np.int64(case.get("mc_paths", 1)), pms, product, None if eps is None else np.float64(eps))
     return cp, pms
+
+
+def round_trip(obj, how):
+    """A copy of the object: "dill" (dumps / loads, what a pool worker receives), "deepcopy" (what the multilevel engine keeps per
+    level) or the object itself."""
+    if how == "dill":
+        import dill
+
+        return dill.loads(dill.dumps(obj))
+    if how == "deepcopy":
+        return copy.deepcopy(obj)
+    return obj
 
 
 # ----------------------------------------------------------------------------------------------------------------------
@@ -738,6 +851,7 @@ def verify_kernel(sh, D, cp, spec, level, product_fn, cls, sub, pms=None, maturi
     if min(neg_f, neg_c) < -TOL_CANCEL * lam_f:
         sh.count("negative-reference-mass-clamped")
     kernel = D.kernel_fn(cp)
+    kernel_raw = D.kernel_fn(cp, raw=True)
     uni = D.uniform_of(cp)
     orig_sample = uni.sample
     coarse_vals = set(rc) | {D.zero}
@@ -797,6 +911,26 @@ def verify_kernel(sh, D, cp, spec, level, product_fn, cls, sub, pms=None, maturi
                 split += 1
             for y, p in L.items():
                 acc[y] = acc.get(y, 0.0) + rf[x] * p
+            # the same increment in another integer form (what the samplers hand over is not the harness's Python int) is
+            # sent to the same coarse state by the same uniform; a form the code refuses is outside the alphabet
+            for u in (0.37, 0.81):
+                usual = f(u)
+                if isinstance(usual, tuple) and usual and usual[0] == "RAISES":
+                    continue
+                for fname, other in D.forms(inc):
+                    uni.sample = lambda size=1, u=u: np.full(size, u)
+                    try:
+                        got = kernel_raw(other)
+                    except SeamMissing:
+                        raise
+                    except Exception:  # noqa
+                        sh.count(f"increment-form-refused:{fname}")
+                        continue
+                    sh.count("evaluations")
+                    if got != usual:
+                        sh.violation(f"C03:{sub}:kernel-depends-on-the-form-of-the-increment:{fname}:{pclass}:{cls}",
+                                     f"level {level}: increment {inc} with coupling uniform {u}: {got} when handed over as {fname}, "
+                                     f"{usual} as Python int(s)", None)
     finally:
         uni.sample = orig_sample
     # (i) telescoping
@@ -846,6 +980,10 @@ def verify_kernel(sh, D, cp, spec, level, product_fn, cls, sub, pms=None, maturi
                 sh.violation(f"C03:{sub}:fine-deterministic-path-differs:{which}:{cls}",
                              f"level {level}, path manager {k}: {dp[0].tolist()} vs level-{k} chain {want_f.tolist()}", None)
             sh.count("evaluations")
+            if not np.array_equal(times, np.array([0.0, 0.3, float(maturity)])):
+                sh.violation(f"C03:{sub}:deterministic-path-modifies-the-callers-times:{cls}",
+                             f"level {level}, path manager {k}: the times array handed over is now {times.tolist()}", None)
+                times = np.array([0.0, 0.3, float(maturity)])
     # diffusion coefficients / matrices
     cf, cc = D.coefficients(cp)
     want_cf, want_cc = D.chain_coefficient(chains[level][0]), D.chain_coefficient(chain_c)
@@ -877,21 +1015,26 @@ def _kernel(sh, case):
         cls += ":route-none"
     product = product_of(case)
     maturity = product.maturity
-    with nd_diffusion_stub(case.get("stub")), scripted_env() as st:
+    prep, carrier = case.get("prep", "precompute"), case.get("carrier", "self")
+    with nd_diffusion_stub(case.get("stub")), scripted_env(COUNTS[case.get("counts", "a")]) as st:
         try:
             cp, pms = take_to_level(sh, D, case, product, cls, sub)
         except A.OutsideAlphabet:
             sh.count("outside-alphabet-grid")
             return
         res = verify_kernel(sh, D, cp, spec_of(case), level, lambda: product_of(case), cls, sub, pms=pms, maturity=maturity)
-        # (iv) a few scripted paths of this very object, kernel images from the object itself
+        # (iv) a few scripted paths of this very object (or of a copy of it), kernel images from the same object
         refs = {"coefs": res["coefs"]}
-        verify_paths(sh, D, cp, cp, product, refs, cls, sub, n_paths=3, st=st, per_jump_times=case.get("mode", "fixed") != "fixed")
+        obs = round_trip(cp, carrier)
+        verify_paths(sh, D, obs, obs, product, refs, cls + copy_tag(carrier), sub, n_paths=3, st=st,
+                     per_jump_times=case.get("mode", "fixed") != "fixed", prep=prep, avail=case.get("mc_paths", 1))
     if res["split"]:
         sh.nontriv()
     sh.cls(f"{sub}:history:{case.get('history', 'plain')}")
     sh.cls(f"{sub}:route:{route}")
     sh.cls(f"{sub}:mode:{case.get('mode', 'fixed')}")
+    sh.cls(f"{sub}:prep:{prep}")
+    sh.cls(f"{sub}:carrier:{carrier}")
     if D.dim == 1 and gk == "fixed" and case["model"] == HEM and level == 1 and route == "pm":
         sh.sample({"sub": sub, "case": case, "fine_rates": res["rf"], "coarse_rates": res["rc"], "telescoped": res["acc"]})
     if D.dim == 2 and case["grid"] == G_F3 and level == 1 and case["model"] == CM_HV:
@@ -906,9 +1049,11 @@ def _kernel(sh, case):
 U_PATH = (0.2, 0.8, 0.5, 0.03, 0.97, 0.35)
 
 
-def verify_paths(sh, D, cp, twin, product, refs, cls, sub, n_paths, st, per_jump_times):
+def verify_paths(sh, D, cp, twin, product, refs, cls, sub, n_paths, st, per_jump_times, prep="precompute", avail=None):
     """Simulate n_paths coupled paths of `cp` (random sources scripted by the enclosing scripted_env) and compare each with the
-    fine chain's own output and the kernel images of `twin` (which may be cp itself)."""
+    fine chain's own output and the kernel images of `twin` (which may be cp itself).
+    prep = "precompute": reset_one_simulation_cost and pre_computation first (Engine.price); "next-level": nothing - the object
+    is used as next_level left it, which pre-computed for `avail` paths (Engine.price_with_constant_mc_paths_and_level)."""
     dim = D.dim
     fine = cp.fine_process
     ps = _attr(fine, "_path_simulation")
@@ -933,14 +1078,21 @@ def verify_paths(sh, D, cp, twin, product, refs, cls, sub, n_paths, st, per_jump
     want_cf, want_cc = refs["coefs"]
     ratio = want_cc @ np.linalg.pinv(want_cf)  # coarse diffusion = ratio @ fine diffusion when driven by the same increments
     maturity = float(product.maturity)
-    try:
-        cp.reset_one_simulation_cost()
-        cp.pre_computation(mc_paths=n_paths, product=product)
-    except SeamMissing:
-        raise
-    except Exception as e:  # noqa
-        sh.violation(f"C03:{sub}:pre-computation-raises-{type(e).__name__}:{cls}", f"{e!r}", None)
-        return
+    if prep == "next-level":
+        if not per_jump_times:
+            n_paths = min(n_paths, int(avail or 0))  # the fixed-dates classes pre-draw one row of variates per path
+        cls_p = cls + ":as-left-by-next-level"
+    else:
+        cls_p = cls
+        try:
+            cp.reset_one_simulation_cost()
+            cp.pre_computation(mc_paths=n_paths, product=product)
+        except SeamMissing:
+            raise
+        except Exception as e:  # noqa
+            sh.violation(f"C03:{sub}:pre-computation-raises-{type(e).__name__}:{cls}", f"{e!r}", None)
+            return
+    cls = cls_p
     seen_odd = False
     for p in range(n_paths):
         u = U_PATH[p % len(U_PATH)]
@@ -1063,8 +1215,34 @@ def verify_paths(sh, D, cp, twin, product, refs, cls, sub, n_paths, st, per_jump
                 sh.count("fine-diffusion-identically-zero-with-positive-coefficient")
             else:
                 sh.cls(f"{sub}:diffusion:non-zero")
+                if not np.allclose(want_cf, want_cc, rtol=1e-6, atol=0.0):
+                    sh.cls(f"{sub}:diffusion:non-zero:level-dependent:{prep}:{'jump-times' if per_jump_times else 'fixed-dates'}")
+        # the fine component is the level-l chain: its diffusion part moves by (level-l coefficient) x sqrt(dt) x (a standard normal
+        # variate the simulation drew) over every step - dimension 1, where the coefficient can be divided out
+        if dim == 1 and float(want_cf[0, 0]) != 0.0 and T.size >= 2:
+            sig = float(want_cf[0, 0])
+            dT, dD = np.diff(T), np.diff(Dp[0, 0])
+            drawn_n = np.asarray(st.normals, dtype=float)
+            if drawn_n.size == 0:
+                sh.count("normal-seam-not-used")
+            else:
+                ok_steps = dT > 0.0
+                w = dD[ok_steps] / (np.sqrt(dT[ok_steps]) * sig)
+                slack = 1e-9 + 64 * np.finfo(float).eps * sc / (np.sqrt(dT[ok_steps]) * abs(sig))
+                dist = np.array([float(np.min(np.abs(drawn_n - x))) for x in w]) if w.size else np.zeros(0)
+                sh.count("evaluations", int(w.size))
+                if np.any(dist > slack):
+                    n = int(np.argmax(dist - slack))
+                    sh.violation(f"C03:{sub}:fine-diffusion-step-is-not-level-l-coefficient-times-a-drawn-normal:{cls}",
+                                 f"path {p}: step {n} of the fine diffusion part is {dD[ok_steps][n]!r} over dt = {dT[ok_steps][n]!r}: divided by the "
+                                 f"level-l coefficient {sig!r} and sqrt(dt) it gives {w[n]!r}, at {dist[n]:.3g} from the nearest standard "
+                                 f"normal variate handed out to the simulation", None)
         sh.outcome((sub, cls, tuple(word), round(float(np.sum(J[1, :, -1])), 12), round(float(np.sum(Dp[1, :, -1])), 12)))
     return seen_odd
+
+
+def copy_tag(carrier):
+    return "" if carrier == "self" else f":on-a-{carrier}-copy"
 
 
 def _assembly(sh, case):
@@ -1075,7 +1253,8 @@ def _assembly(sh, case):
     sub = f"assembly{D.dim}d"
     cls = f"{meth.lower()}:{mode}" + (":route-none" if route != "pm" else "")
     product = product_of(case)
-    with nd_diffusion_stub(case.get("stub")), scripted_env() as st:
+    prep, carrier = case.get("prep", "precompute"), case.get("carrier", "self")
+    with nd_diffusion_stub(case.get("stub")), scripted_env(COUNTS[case.get("counts", "a")]) as st:
         try:
             cp, pms = take_to_level(sh, D, case, product, cls, sub)
         except A.OutsideAlphabet:
@@ -1085,9 +1264,13 @@ def _assembly(sh, case):
         spec = spec_of(case)
         refs = {"coefs": (D.chain_coefficient(ref_chain(D, spec, level, product_of(case))[0]),
                           D.chain_coefficient(ref_chain(D, spec, level - 1, product_of(case))[0]))}
-        seen_odd = verify_paths(sh, D, cp, twin, product, refs, cls, sub, n_paths=6, st=st, per_jump_times=mode != "fixed")
+        obs = round_trip(cp, carrier)
+        seen_odd = verify_paths(sh, D, obs, twin, product, refs, cls + copy_tag(carrier), sub, n_paths=6, st=st, per_jump_times=mode != "fixed",
+                                prep=prep, avail=case.get("mc_paths", 1))
     if seen_odd:
         sh.nontriv()
+    sh.cls(f"{sub}:prep:{prep}")
+    sh.cls(f"{sub}:carrier:{carrier}")
     sh.cls(f"{sub}:history:{case.get('history', 'plain')}")
     sh.cls(f"{sub}:route:{route}")
     sh.cls(f"{sub}:product:{case['product']['underlying']}-{case['product']['maturity']}")
@@ -1118,6 +1301,7 @@ def _sde(sh, case):
     level, dim = case["level"], case["dim"]
     D = dim_of(case)
     history = case.get("history", "plain")
+    prep, carrier = case.get("prep", "precompute"), case.get("carrier", "self")
     drv_name = case["driver"]["family"] + ("[reinit]" if case["driver"].get("via") else "") if dim == 1 else "+".join(case["driver"])
     cls = f"{case['sde']}:d{dim}:{drv_name}"
     sub = "sde"
@@ -1147,7 +1331,7 @@ def _sde(sh, case):
                                  f"history {history}: simulating at level {l} before next_level: {e!r}", None)
                 if history == "engine":
                     cp = copy.deepcopy(cp)
-            cp.next_level(1, pms, product)
+            cp.next_level(3 if prep == "next-level" else 1, pms, product)
         # drifts of the two components
         if dim == 1:
             spec = {"model": case["driver"], "grid": case["grid"], "method": case["method"], "dim": 1}
@@ -1166,8 +1350,11 @@ def _sde(sh, case):
         # the driver coupling reached through CouplingSDE.next_level: next_level(path_managers=None, max_step_epsilon=epsilon)
         drv_cp = _attr(cp, "driver_coupling_process")
         res = verify_kernel(sh, D, drv_cp, spec, level, lambda: make_product(maturity=maturity), cls, "sde-driver", pms=None, maturity=maturity)
-        verify_paths(sh, D, drv_cp, drv_cp, product, {"coefs": res["coefs"]}, cls, "sde-driver", n_paths=3, st=st, per_jump_times=True)
+        obs = round_trip(drv_cp, carrier)
+        verify_paths(sh, D, obs, obs, product, {"coefs": res["coefs"]}, cls + copy_tag(carrier), "sde-driver", n_paths=3, st=st,
+                     per_jump_times=True, prep=prep, avail=3)
     sh.cls(f"sde:history:{history}")
+    sh.cls(f"sde:prep:{prep}")
     sh.nontriv()
 
 
@@ -1185,10 +1372,16 @@ def post(total, tier):
         "assembly1d:diffusion:non-zero",
         "assembly2d:diffusion:non-zero",
     ] + [f"{s}:history:{h}" for s in ("kernel1d", "kernelnd", "assembly1d", "assembly2d") for h in HISTORIES]
+    need += [f"{s}:{a}:{v}" for s in ("kernel1d", "kernelnd", "assembly1d", "assembly2d") for a, vs in (("prep", PREPS), ("carrier", CARRIERS))
+             for v in vs]
+    # a level-dependent diffusion coefficient observed on paths, prepared either way, with pre-drawn and with on-the-fly increments
+    need += [f"{s}:diffusion:non-zero:level-dependent:{pr}:{m}" for s in ("kernel1d", "assembly1d", "assembly2d", "kernelnd")
+             for pr in PREPS for m in ("fixed-dates", "jump-times")]
+    need += [f"sde-driver:diffusion:non-zero:level-dependent:{pr}:jump-times" for pr in PREPS]
     for n in need:
         if n not in total.classes:
             total.cap(f"coverage floor not reached: {n}")
     for n in ("outside-alphabet-grid", "fine-diffusion-identically-zero-with-positive-coefficient", "seam-missing",
-              "path-time-grid-does-not-span-0-to-maturity"):
+              "path-time-grid-does-not-span-0-to-maturity", "normal-seam-not-used"):
         if total.counters.get(n):
             total.cap(f"{n}: {total.counters[n]} case(s)")
